@@ -43,7 +43,7 @@ def _stage(workdir, spec_path, cfg_path):
 
 def run(spec, cfg=None, *, env=None, workers=1, heap="800m", timeout=600, simulate=None,
         depth=None, seed=None, coverage=False, deadlock=False, extra=(), cfg_text=None,
-        keep=False, tag=None):
+        keep=False, tag=None, extra_files=None):
     """Run TLC on specs/**/<spec>.tla with config `cfg` (path or name next to the spec).
 
     Returns dict(rc, out, states, distinct, transitions?, violated, printed=[...json values],
@@ -54,6 +54,8 @@ def run(spec, cfg=None, *, env=None, workers=1, heap="800m", timeout=600, simula
         p = os.path.join(d, spec + ".tla")
         if os.path.exists(p):
             spec_path = p
+    if spec_path is None and extra_files and spec + ".tla" in extra_files:
+        spec_path = os.path.join(SPECS, "mc", spec + ".tla")      # generated wrapper module
     if spec_path is None:
         raise TLCError(f"spec {spec} not found")
     os.makedirs(WORK, exist_ok=True)
@@ -68,6 +70,11 @@ def run(spec, cfg=None, *, env=None, workers=1, heap="800m", timeout=600, simula
         if not os.path.exists(cfg_path):
             cfg_path = os.path.join(SPECS, "mc", cfg)
     _stage(workdir, spec_path, cfg_path)
+    for name, text in (extra_files or {}).items():
+        with open(os.path.join(workdir, name), "w") as f:
+            f.write(text)
+    if extra_files and spec + ".tla" in extra_files:
+        spec_path = os.path.join(workdir, spec + ".tla")
     cmd = ["java", "-XX:+UseSerialGC", "-XX:TieredStopAtLevel=1", f"-Xmx{heap}", "-Xss16m",
            "-XX:-UsePerfData", "-cp", f"{JAR}:{DEPS}", "tlc2.TLC",
            "-workers", str(workers), "-noGenerateSpecTE", "-metadir",
@@ -89,6 +96,9 @@ def run(spec, cfg=None, *, env=None, workers=1, heap="800m", timeout=600, simula
     if env:
         e.update({k: str(v) for k, v in env.items()})
     t0 = time.time()
+    # the limits in the callers are sized for an idle machine; a loaded one (several checks side by side) must
+    # not turn a slow TLC run into a machinery failure
+    timeout = timeout * float(os.environ.get("VERIF_TIMEOUT_FACTOR", "4"))
     try:
         p = subprocess.run(cmd, cwd=workdir, env=e, capture_output=True, text=True,
                            timeout=timeout)
